@@ -14,7 +14,8 @@ rm -rf $W/SEED; mkdir -p $W/SEED; cp -r $SRC $W/SEED/$K
 export CARGO_NET_OFFLINE=true
 # make sure the demo test files are where cargo finds them (some run.sh only document the copy)
 CR0=$(grep '^+++ b/' SEED/$K/patch.diff | sed 's#+++ b/##; s#/.*##' | sort -u | head -1)
-mkdir -p $CR0/tests; for f in SEED/$K/demo/*.rs; do [ -f "$f" ] && [ ! -f "$CR0/tests/$(basename $f)" ] && cp "$f" $CR0/tests/; done
+DCR=$(grep -o '[a-z_]*/tests/seed_demo' SEED/$K/demo/run.sh | head -1 | cut -d/ -f1); [ -z "$DCR" ] && DCR=$CR0
+mkdir -p $DCR/tests; for f in SEED/$K/demo/*.rs; do [ -f "$f" ] && [ ! -f "$DCR/tests/$(basename $f)" ] && cp "$f" $DCR/tests/; done
 cat SEED/$K/demo/run.sh
 # 1. demo on clean tree
 ( bash SEED/$K/demo/run.sh ) ; CLEAN_RC=$?
@@ -29,5 +30,5 @@ for c in $CRATES; do
   grep -E "FAIL" /tmp/seedcheck_tests.txt | grep -v -E "test_raft_wal_append_returns_io_error_on_failure|test_tx_wal_open_permission_denied|test_tx_wal_append_disk_full_simulation|test_tx_wal_truncate_error_handling|test_raft_wal_readonly_file_append_fails|test_tensor_store_readonly_wal_put_fails_gracefully" && TEST_RC=1
 done
 git checkout -- . ; git clean -fdq -e target -e SEED
-rm -f $CR0/tests/seed_demo_*.rs
+rm -f $DCR/tests/seed_demo_*.rs; rmdir $DCR/tests 2>/dev/null
 echo "RESULT pid=$PID k=$K demo_clean_rc=$CLEAN_RC demo_patched_rc=$PATCH_RC crates='$CRATES' existing_tests_rc=$TEST_RC"
